@@ -26,6 +26,12 @@ type C11Scn struct {
 	// synchronising statements, ALL (task, site, visit) x {plain, second
 	// preemption, double park} schedules are executed instead of a sample.
 	Trio bool `json:"trio,omitempty"`
+	// Bystander: one more task that never touches the shared instance: while
+	// the readers run it loads the same stream into (or builds the same input
+	// as) an instance of its own and reads that. Whatever the library shares
+	// between instances - package-level scratch, pools, a worker goroutine -
+	// is then in use by a writer-like activity next to the readers.
+	Bystander string `json:"bystander,omitempty"` // "" | load | build
 }
 
 func intWidth(enc string, hasVals bool) int {
@@ -292,6 +298,15 @@ func genC11(r *Rng, tier string) *C11Scn {
 			ts.Units = append(ts.Units, genUnit(r, qs, mix))
 		}
 		c.Tasks = append(c.Tasks, ts)
+	}
+	if r.Chance(0.12) && len(keys) <= 3000 {
+		c.Bystander = "load"
+		if c.Source == "built" {
+			c.Bystander = "build"
+		}
+		if r.Chance(0.4) {
+			c.Bystander = "load-other" // another content: nothing to compare it with, it only is there
+		}
 	}
 	return c
 }
@@ -812,6 +827,80 @@ func executeC11Once(scn *Scenario) *RunResult {
 			for len(live) > 0 && !sim.stop {
 				sim.yield0()
 				stepLive()
+			}
+		})
+	}
+	if c.Bystander != "" && len(c.Tasks) > 0 {
+		var bstream []byte
+		benc := ""
+		if c.Bystander == "load" {
+			if b, e, err := c.stream(); err == nil && b != nil {
+				bstream, benc = b, e
+			}
+		}
+		other := c.Bystander == "load-other"
+		if other {
+			benc = fixtureEnc
+			if c.Spec != nil {
+				benc = c.Spec.Enc
+			}
+			bstream = priorStreamFor(benc)
+		}
+		units := c.Tasks[0].Units
+		bid := len(c.Tasks)
+		sim.addTask("bystander", func(t *Task) {
+			defer func() {
+				if r := recover(); r != nil {
+					if _, ok := r.(abortUnit); !ok {
+						panic(r)
+					}
+				}
+			}()
+			var own *trie.SlimTrie
+			sim.enterUnit(t, "bystander-"+c.Bystander, 0)
+			switch {
+			case c.Bystander == "build" && c.Spec != nil:
+				if si := c.Spec.buildIndex(); si != nil {
+					own = &si.SlimTrie
+				} else if st, err := c.Spec.build(); err == nil {
+					own = st
+				}
+			case bstream != nil:
+				st := fresh(benc)
+				if e, p := loadVia(st, "direct", append([]byte{}, bstream...)); e == nil && p == "" {
+					own = st
+				}
+			}
+			sim.exitUnit(t)
+			sim.probe("bystander_" + c.Bystander)
+			if own == nil {
+				return
+			}
+			if other {
+				// reads on its own content, unjudged
+				for _, k := range priorKeys()[:6] {
+					sim.yield0()
+					sim.enterUnit(t, "get", 100000)
+					own.Get(string(k))
+					own.RangeGet(string(k) + "x")
+					sim.exitUnit(t)
+				}
+				return
+			}
+			// it holds what the subject holds: its answers are the twin's
+			for ui := range units {
+				if sim.stop {
+					break
+				}
+				sim.yield0()
+				u := &units[ui]
+				if soloCapped(refs[u.key()].out) || (u.Kind == "iter" && u.Spread) || u.Kind == "idxget" || u.Kind == "idxrangeget" {
+					continue
+				}
+				sim.enterUnit(t, u.Kind, unitCap(refs[u.key()].steps))
+				out := u.run(own, sim.yield0)
+				sim.exitUnit(t)
+				check(bid, ui, u, out)
 			}
 		})
 	}
